@@ -18,7 +18,8 @@ EXTENDS Integers, Sequences, FiniteSets
 CONSTANTS Clients,      \* client ids taken from the TLS certificate
           Streams,      \* stream names, including the reserved internal stream "__cursors"
           AuthFirst,    \* TRUE: Subscribe / PublishAsync as repaired (fix: commits); FALSE: as pinned
-          GroupAuthz    \* TRUE if the consumer-group methods check the policy (they do not, today)
+          GroupAuthz    \* TRUE: the consumer-group methods check the policy as repaired (fix: b5212c0, resource =
+                        \* the consumer group id, action = the method name); FALSE: as pinned (no check at all)
 
 Star == "*"              \* resource of FetchMetadata
 GroupId == "g1"          \* the one consumer group of the model
@@ -40,7 +41,11 @@ UserStreams == Streams \ {CursorsStream}
 \* PublishToSubject is authorised on the SUBJECT (stream name and subject must not be confused)
 SubjOf(s) == CASE s = "s1" -> "j1" [] s = "s2" -> "j2" [] OTHER -> "jsys"
 Subjects == {SubjOf(s) : s \in UserStreams}
-Resources == Streams \cup Subjects \cup {Star, GroupId}
+\* Names that travel in a request next to its resource (the consumer id of the group calls) are names an
+\* operator can write into a policy file too: an entry on such a name grants nothing on the resource itself.
+ConsumerOf(c) == c     \* consumer id used by client c in group calls
+ConsumerIds == {ConsumerOf(c) : c \in Clients}
+Resources == Streams \cup Subjects \cup {Star, GroupId} \cup ConsumerIds
 Entries == Clients \X Resources \X Actions
 
 \* a call: method, client, stream, and the request shape
@@ -68,13 +73,10 @@ VARIABLE clientAuth   \* tls.client.auth.enabled: client certificates are reques
 (* verifies.  Without an identity there is no policy entry it could hold.      *)
 Identified(call) == clientAuth /\ call.cred = "verified"
 
-(* The property's notion of "lacks the matching entry".  For the group      *)
-(* methods the code defines no resource at all, so the weakest reading is   *)
-(* used: the client holds no entry with that action on any resource.        *)
+(* The property's notion of "lacks the matching entry".  The resource of a  *)
+(* consumer-group method is the consumer group id (ResourceOf).             *)
 Unauthorised(pol, call) ==
   IF ~Identified(call) THEN TRUE
-  ELSE IF call.m \in GroupMethods
-  THEN \A r \in Resources : <<call.c, r, ActionOf(call.m)>> \notin pol
   ELSE ~Allowed(pol, call)
 
 -----------------------------------------------------------------------------
@@ -102,8 +104,6 @@ Fresh  == [Absent EXCEPT !.exists = TRUE]
 
 \* the part of the state the property speaks about
 World == <<st, cursors, members>>
-
-ConsumerOf(c) == c     \* consumer id used by client c in group calls
 
 -----------------------------------------------------------------------------
 (* Handlers: steps in code order.                                           *)
